@@ -26,15 +26,16 @@ import numpy as np
 
 import core
 
-RULE = ("grid cases: b-grid in {1, zero, N, randomQ_N, cube4D_N, fulldiv_N} (n_b = 1 or >= 4), o-grid in {ico, cube3D, randomS}_N "
-        "(N 4..12, thorough ..30), 2-4 radii given as list / linspace / range, spherical and Cartesian position mode, "
-        "factor in {0.5,1,2,3}; per-cell energies from seeded generators (normal, uniform, smooth, wells, large common offset, "
-        "a few beyond the 500 kJ/mol cap); T in [200,400] K, D log-uniform; solver settings (sigma=None,'LR'), (sigma>0,'SR'/'LM'), "
-        "(sigma<0,'LM'), (None,'SR'), tol in {1e-10,1e-12,0} (strict) and 1e-5 (workflow default; weak clauses only); "
-        "sort cases: crafted complex ARPACK outputs (unsorted, conjugate pairs, ties) pushed through get_decomposition; "
-        "io cases: random save/load sequences with and without suffixes, collisions, missing files. "
+RULE = ("grid cases: b-grid in {1, zero, N, randomQ_N, cube4D_N, fulldiv_8/40} (n_b = 1 or >= 4), o-grid in {ico, cube3D, randomS}_N "
+        "(N 4..10, thorough ..30), 2-4 radii given as list / linspace / range (incl. shells of a few hundredths of a nm, where borders "
+        "are ~1e-3), spherical and Cartesian position mode, factor in {0.5,1,2,3}, path arguments with and without suffix; per-cell "
+        "energies from seeded generators (normal, uniform, smooth, wells, large common offset, all equal, a few beyond the 500 kJ/mol "
+        "cap), sigma <= 4 kJ/mol; T in [200,400] K, D log-uniform; solver settings (sigma=None,'LR'), (sigma>0,'SR'/'LM'), "
+        "(sigma<0,'LM'), (None,'SR'), tol in {1e-10,1e-12,0} (strict) and 1e-5 (workflow default; weak clauses only), k = min(12, n-2); "
+        "sort cases: crafted complex solver outputs (unsorted, conjugate pairs, ties) pushed through get_decomposition with the solver "
+        "stubbed; io cases: random save/load sequences with and without suffixes, collisions, missing files, wrong loader. "
         "A grid case is non-trivial when the rate matrix has off-diagonal entries; distinct by all case fields.")
-CHUNK = 5
+CHUNK = 12
 MODEL_MAX_N = 360         # above this size only the oracle runs (interpreted Lean model: ~6 s at n = 300, quadratic)
 
 R_GAS = 8.314462618          # J/(mol K), CODATA 2018 exact (k_B * N_A) - written out, independent of scipy.constants
@@ -198,6 +199,9 @@ def cases(ctx):
         if ctx.quick and b not in ("1", "zero"):
             fix["t"] = _t_name(rng, 2)
         yield _grid_case(rng, thorough, **fix)
+    # always one energy set with differences between 50 and 500 kJ/mol (below the cap, far above RT) and cells beyond the cap
+    yield _grid_case(rng, thorough, b=rng.choice(["1", "4"]), o=rng.choice(["ico_7", "cube3D_8", "randomS_9"]),
+                     E={"mode": "capped", "sig": 30.0, "seed": rng.randrange(10 ** 6)}, solver=None)
     # ARPACK needs k < n-1: small grids exercise the k = n-2 branch of the harness, big ones k = 12
     for _ in range(12 if ctx.quick else 120):
         yield _grid_case(rng, thorough)
@@ -207,7 +211,7 @@ def cases(ctx):
             for cart in (False, True):
                 yield _grid_case(rng, thorough, b=b, o=o, t=t, cart=cart)
     # the code after the ARPACK call, on crafted outputs
-    for _ in range(150 if ctx.quick else 3000):
+    for _ in range(150 if ctx.quick else 1000):
         k = rng.randint(1, 12)
         n = rng.randint(1, 6)
         style = rng.choice(["real", "real", "complex", "pairs", "ties"])
@@ -227,7 +231,7 @@ def cases(ctx):
     # file-name logic
     kinds = ["grid", "volumes", "borders", "distances", "adjacency"]
     stems = ["a", "b", "vol", "vol.npy", "vol.npz", "x.npy.npy", "m", "m.npz", "grid.v2", "Z.NPY"]
-    for _ in range(100 if ctx.quick else 1500):
+    for _ in range(100 if ctx.quick else 600):
         saves = [[rng.choice(kinds), rng.choice(stems)] for _ in range(rng.randint(1, 6))]
         loads = []
         for _k in range(rng.randint(1, 6)):
@@ -258,7 +262,22 @@ def _coo_list(m):
     return [int(x) for x in c.row], [int(x) for x in c.col], [float(x) for x in c.data]
 
 
+def _limit_blas():
+    """the matrices are small (n <= ~1500): 16 OpenBLAS threads only add contention on a shared machine"""
+    if "done" not in _IO_GW_FLAGS:
+        _IO_GW_FLAGS["done"] = True
+        try:
+            from threadpoolctl import threadpool_limits
+            _IO_GW_FLAGS["ctl"] = threadpool_limits(limits=2)
+        except Exception:      # optional
+            pass
+
+
+_IO_GW_FLAGS = {}
+
+
 def impl(case):
+    _limit_blas()
     kind = case["kind"]
     if kind == "grid":
         return _impl_grid(case)
